@@ -162,6 +162,13 @@ func (p *Parser) parseTransaction() *ast.Transaction {
 			// a comment line inside a transaction belongs to the transaction
 			tx.Comments = append(tx.Comments, *comment)
 		}
+		if (posting != nil || comment != nil) && p.current.Type != TokenNewline && p.current.Type != TokenEOF {
+			// whatever follows a posting on its line is not understood; it must
+			// not be taken for the start of the next entry
+			p.error("unexpected token: %s", p.current.Type)
+			p.skipToNextLine()
+			continue
+		}
 		if p.current.Type == TokenNewline {
 			p.advance()
 		}
